@@ -57,8 +57,8 @@ def make_texts(art, rnd, count, maxrunes):
                 break
         texts.append(t[:maxrunes])
     texts += [[], [32], [10, 10], toks[0] if toks else [97]]
-    # remove NUL, keep valid code points
-    return [[c for c in t if c > 0] for t in texts]
+    # inputs are UTF-8 texts: no NUL (the reader's end marker), no surrogates, nothing beyond U+10FFFF
+    return [[c for c in t if 0 < c <= 0x10FFFF and not 0xD800 <= c <= 0xDFFF] for t in texts]
 
 
 def validate_reader(ck, rt):
